@@ -106,13 +106,17 @@ impl C07 {
                 if s.liquidity > 0 {
                     let in_range: Vec<&(Pubkey, Position)> = positions.iter().filter(|(_, p)| p.lower <= tick && tick < p.upper).collect();
                     let sum: u128 = in_range.iter().fold(0u128, |a, (_, p)| a.wrapping_add(p.liquidity));
+                    // the share is measured against the total in-range liquidity of the statement: the positions covering the
+                    // step's tick (if the pool trades against another figure, C05 says so; the shares stay what they are)
                     if sum != s.liquidity {
-                        cov.note("c07_step_not_attributable");
-                        self.unattributable.insert(o.whirlpool);
-                        break;
+                        cov.note("c07_step_liquidity_differs_from_positions");
+                        if sum == 0 {
+                            self.unattributable.insert(o.whirlpool);
+                            break;
+                        }
                     }
                     if lp_fee > 0 {
-                        let d = BigUint::from(s.liquidity);
+                        let d = BigUint::from(sum);
                         for (k, p) in in_range {
                             let sh = self.shadow.entry(*k).or_insert_with(Shadow::new);
                             let n = BigUint::from(lp_fee) * BigUint::from(p.liquidity);
